@@ -218,6 +218,11 @@ class EdgeLib(LibBase):
             out.append(("edge.slot-delay-is-store-delay", st.f["delay"].t == st.f[PFX + "delay"].t, ("C12",)))
         if cls == "CConveyor":
             out.append(("edge.speed-is-store-speed", st.f["speed"].t == st.f[PFX + "speed"].t, ("C12",)))
+        if cls == "Fleet":
+            out.append(("edge.transit-delay-is-store-transit-delay", z3.Implies(
+                st.f["transit_delay"].is_num(), st.f[PFX + "transit_delay"].t == st.f["transit_delay"].num), ("C14",)))
+            out.append(("edge.waiting-delay-is-store-delay", z3.Implies(
+                st.f["delay"].is_num(), st.f[PFX + "delay"].t == st.f["delay"].num), ("C14",)))
         if cls == "Buffer":
             out.append(("edge.mode-is-store-mode", st.f["mode"].t == st.f[PFX + "mode"].t, ("C06",)))
             out.append(("edge.mode-valid", z3.Or(st.f["mode"].t == V.str_const("FIFO"), st.f["mode"].t == V.str_const("LIFO")),
@@ -290,6 +295,9 @@ class EdgeLib(LibBase):
         cls = ex.ctx.cls
         con = self.contracts[cls].get(name) or self.contracts["Edge"].get(name)
         if con is None:
+            r = self.inline_accessor(ex, name, args, kw, st, lineno)
+            if r is not None:
+                return r
             raise Unsupported("call to self.%s() which has no contract (line %d)" % (name, lineno))
         if con.is_generator:
             from pyvc.execute import VGen
@@ -350,6 +358,13 @@ class EdgeLib(LibBase):
             # BeltStore(env, capacity, delay) / BeltStore(env, capacity, speed, accumulating): positional
             kw = dict(kw)
             kw["capacity"] = args[1]
+        if name in ("BufferStore", "FleetStore") and len(args) > 1:
+            # positional arguments follow the constructor's signature
+            kw = dict(kw)
+            sig = ("env", "capacity", "mode") if name == "BufferStore" else ("env", "capacity", "delay", "transit_delay")
+            for k, a in enumerate(args):
+                if k < len(sig) and sig[k] not in kw:
+                    kw[sig[k]] = a
         con = self.storelib.contracts[scls]["__init__"]
         s = st.fork()
         tag = "new%s" % logic.fresh("n").decl().name().split("!")[1]
@@ -364,6 +379,16 @@ class EdgeLib(LibBase):
         amap = {"capacity": Num(z3.ToInt(capn.t) if not capn.is_int else capn.t, inf=z3.BoolVal(False))}
         if scls == "B":
             amap["mode"] = kw.get("mode")
+        if scls == "L":
+            # the store uses both values as numbers (timeouts); a generator / callable delay of the Fleet edge is not
+            # a number (the edge never draws from it for the store): modelled by its numeric payload
+            for k_, dflt in (("delay", 1), ("transit_delay", 0)):
+                v_ = kw.get(k_)
+                amap[k_] = V.as_num(num(v_)) if v_ is not None else Num(dflt)
+                if not amap[k_].is_int:
+                    pass
+                else:
+                    amap[k_] = Num(z3.ToReal(amap[k_].t))
         if scls == "S":
             # the BeltStore subclass in slotted_conveyor.py passes mode="FIFO" to the belt store proper
             amap["delay"] = V.as_num(num(args[2]))
